@@ -205,6 +205,9 @@ pub fn check_l2(vm: &mut VM, prog: &Program, layout: &Layout) -> (L2Verdict, Str
     if flat.labels.keys().any(|l| flat.procs.contains_key(l)) {
         classes.push("c08/label-shares-a-procedure-name".to_string());
     }
+    if uses_vocab_names(prog) {
+        classes.push("c08/labels-and-procedures-named-by-vocabulary-words".to_string());
+    }
     let nt = f.backward_jump || f.call_depth2 || f.label_adjacent_special || f.repeated_call;
     (L2Verdict::Pass { nontrivial: nt, classes }, rendered.text)
 }
@@ -243,6 +246,7 @@ fn small_scope_cfg(toks: Vec<Tok>, variant: usize) -> GenCfg {
         with_data: false,
         max_depth: 3,
         stepping: false,
+        vocab: 0,
     }
 }
 
@@ -291,6 +295,9 @@ pub fn eval_cli(c: &C8Case) -> CaseOutcome {
     let f = features(&prog, &rr.trace, &flat);
     let nt = f.backward_jump || f.call_depth2 || f.label_adjacent_special || f.repeated_call;
     let mut classes = vec!["c08/cli".to_string()];
+    if uses_vocab_names(&prog) {
+        classes.push("c08/cli/labels-and-procedures-named-by-vocabulary-words".into());
+    }
     if f.push_call_in_proc {
         classes.push("c08/cli/nested-call-between-push-and-pop".into());
     }
@@ -746,7 +753,7 @@ pub fn run(ctx: &Ctx) {
 pub fn gen_to_json(g: &GenCfg) -> serde_json::Value {
     let t = |v: &Vec<Tok>| v.iter().map(|t| json!([t.kind, t.a, t.b])).collect::<Vec<_>>();
     json!({"pre": t(&g.toks_pre), "procs": g.procs.iter().map(t).collect::<Vec<_>>(), "main": t(&g.toks_main), "start_pos": g.start_pos,
-        "label_before_proc": g.label_before_proc, "trailing_label": g.trailing_label, "with_prints": g.with_prints, "with_data": g.with_data, "max_depth": g.max_depth, "stepping": g.stepping})
+        "label_before_proc": g.label_before_proc, "trailing_label": g.trailing_label, "with_prints": g.with_prints, "with_data": g.with_data, "max_depth": g.max_depth, "stepping": g.stepping, "vocab": g.vocab})
 }
 
 pub fn gen_from_json(v: &serde_json::Value) -> GenCfg {
@@ -764,6 +771,7 @@ pub fn gen_from_json(v: &serde_json::Value) -> GenCfg {
         with_data: v["with_data"].as_bool().unwrap_or(false),
         max_depth: v["max_depth"].as_u64().unwrap_or(3) as u8,
         stepping: v["stepping"].as_bool().unwrap_or(false),
+        vocab: v["vocab"].as_u64().unwrap_or(0) as u8,
     }
 }
 
